@@ -8,9 +8,12 @@ MODEL_TARGETS = ["model/Parse.vo", "model/CanonicalForm.vo", "spec/PcfSpec.vo"]
 COQ_TARGETS = ["props/C07.vo"]
 THEOREMS = [("C07", ["C07_ns_edge_def", "C07_ns_edge_ref", "C07_resolve", "C07_resolve_iff", "C07_reject_unknown_reference",
                      "C07_reject_duplicate_definition", "C07_reject_missing_attribute", "C07_no_unconditional_cycle",
-                     "C07_cycle_check_exact", "C07_forward_resolution"])]
+                     "C07_cycle_check_exact", "C07_forward_resolution",
+                     "C07_any_order", "C07_any_order_iff", "C07_any_order_definitions", "C07_any_order_canonical",
+                     "C07_backward_is_any_order", "C07_any_order_backward"])]
 PROOF_FILES = ["proofs/SchemaTextProofs.v", "proofs/ParseResolveDefs.v", "proofs/ParseBridge.v", "proofs/ParseLayout.v", "proofs/ParseCf.v",
-               "proofs/ParseRejectProofs.v", "proofs/ParseResolveProofs.v", "props/C07.v"]
+               "proofs/ParseRejectProofs.v", "proofs/ParseResolveProofs.v", "proofs/ParseForwardDefs.v", "proofs/ParseForwardLayout.v",
+               "proofs/ParseForwardProofs.v", "proofs/ParseForwardHoist.v", "props/C07.v"]
 TRUSTED_BASE = [
     "Coq 8.16.1 kernel; no axioms (Print Assumptions: closed)",
     "spec/PcfSpec.v: the Parsing Canonical Form and the fullname rules written from the Avro specification on the JSON AST (no graph); extracted as the oracle for the crate's canonical form text (hook H1)",
@@ -19,7 +22,7 @@ TRUSTED_BASE = [
 ]
 ASSUMPTIONS = [
     "proved: for every document valid per the specification (definition before use) parsing succeeds and canonical_form(parse j) = PcfSpec.pcf j, i.e. every reference resolves to the type the specification designates, field order / symbols / sizes preserved (C07_resolve); unknown reference, duplicate fullname, missing attribute, unconditional record cycle are errors; the cycle check is exact",
-    "use before definition (accepted by the crate, not by the specification): the late-resolution lemma is proved; the full statement against the hoisted document is decided by the correspondence run (documents with forward references, H1 text vs extracted pcf of the hoisted document)",
+    "use before definition (accepted by the crate, not by the specification): proved as well (C07_any_order*): the parser returns the designated graph, every reference slot holds the single node carrying the reference's specification fullname, every definition has exactly one node, and the canonical form -- when the writer produces one -- is the specification's PCF of the hoisted document; not proved: that the writer's guard against cycles of unnamed types never fires on a parsed graph (never observed in the correspondence run, which compares H1 text with the extracted pcf of the hoisted document)",
     "three spec-allowed spellings the crate rejects are documented and excluded (type given as a nested object; a name attribute on an unnamed type takes part in the duplicate check; non-canonical size tokens like 04): C07_*_refuted",
     "logical types and their parameters are compared node by node between model and crate in the correspondence run (the canonical form drops them)",
 ]
